@@ -64,7 +64,79 @@ func c06(c *ev.Ctx) {
 		}
 		c.SampleEvery(i, func() interface{} { return map[string]interface{}{"script": script} })
 	})
+	c06Names(c)
 	c06Fixed(c)
+}
+
+// c06Names: one identifier used in several roles at once (global, function,
+// parameter, local, loop variable / index, object field, built-in name, string
+// contents, hash key): the name spaces must not leak into each other.
+func c06Names(c *ev.Ctx) {
+	id := func(n string) gast.Expr { return gast.Ident{Name: n} }
+	il := func(v int64) gast.Expr { return gast.IntLit{V: v} }
+	str := func(v string) gast.Expr { return gast.StrLit{V: v} }
+	call := func(f string, a ...gast.Expr) gast.Expr { return gast.Call{Fn: f, Args: a} }
+	arr := func(a ...gast.Expr) gast.Expr { return gast.ArrayLit{Els: a} }
+	asg := func(n string, e gast.Expr) gast.Stmt { return gast.Assign{Name: n, X: e} }
+	ret := func(e gast.Expr) gast.Stmt { return gast.Return{X: e} }
+	plus := func(a, b gast.Expr) gast.Expr { return gast.Infix{Op: "+", L: a, R: b} }
+	tr := func(a ...gast.Expr) gast.Stmt { return gast.ExprStmt{X: gast.Call{Fn: "t", Args: a}} }
+	names := []string{"x", "len", "type", "f", "Name", "Count", "k", "string", "a"}
+	templates := []func(n, m string) gast.Program{
+		func(n, m string) gast.Program { // variable and function of the same name
+			return gast.Program{Stmts: []gast.Stmt{asg(n, il(1)), gast.FuncDef{Name: "u_" + n, Params: []string{n}, Body: []gast.Stmt{ret(plus(id(n), il(10)))}}, ret(arr(id(n), call("u_"+n, id(n)), id(n)))}}
+		},
+		func(n, m string) gast.Program { // parameter shadows global and field; assignment inside stays local
+			return gast.Program{Stmts: []gast.Stmt{gast.FuncDef{Name: "g", Params: []string{n, m}, Body: []gast.Stmt{asg(n, plus(id(n), il(1))), tr(id(n), id(m)), ret(arr(id(n), id(m)))}}, asg("r", call("g", il(5), str("s"))), ret(arr(id(n), id(m), id("r")))}}
+		},
+		func(n, m string) gast.Program { // local shadows global / field, and is gone afterwards
+			return gast.Program{Stmts: []gast.Stmt{asg(m, str("glob")), gast.FuncDef{Name: "g", Body: []gast.Stmt{gast.Local{Name: n}, gast.Local{Name: m}, asg(n, str("loc")), asg(m, id(n)), ret(arr(id(n), id(m)))}}, asg("r", call("g")), ret(arr(id(n), id(m), id("r"), str(n)))}}
+		},
+		func(n, m string) gast.Program { // loop variable and index named like a global / field / built-in
+			return gast.Program{Stmts: []gast.Stmt{asg("acc", str("")), gast.Foreach{Idx: m, Var: n, It: arr(str("p"), str("q")), Body: []gast.Stmt{asg("acc", plus(id("acc"), plus(call("string", id(m)), id(n))))}}, ret(arr(id("acc"), id(n), id(m)))}}
+		},
+		func(n, m string) gast.Program { // loop variable inside a function named like its parameter; nested loop with the same names
+			return gast.Program{Stmts: []gast.Stmt{gast.FuncDef{Name: "g", Params: []string{n, m}, Body: []gast.Stmt{
+				gast.Foreach{Idx: m, Var: n, It: arr(il(7), il(8)), Body: []gast.Stmt{gast.Foreach{Idx: m, Var: n, It: str("ab"), Body: []gast.Stmt{tr(id(m), id(n))}}, tr(id(m), id(n))}},
+				ret(arr(id(n), id(m)))}}, ret(arr(call("g", str("P"), str("Q")), id(n), id(m)))}}
+		},
+		func(n, m string) gast.Program { // the name as string contents and as hash key
+			return gast.Program{Stmts: []gast.Stmt{asg(n, str(m)), asg("h", gast.HashLit{Keys: []gast.Expr{str(n), str(m + "_")}, Vals: []gast.Expr{id(n), str(n)}}), ret(arr(id("h"), gast.Index{X: id("h"), I: str(n)}, gast.Index{X: id("h"), I: id(n)}, id(n), id(m)))}}
+		},
+		func(n, m string) gast.Program { // recursion with parameters named like globals that the caller also uses
+			return gast.Program{Stmts: []gast.Stmt{asg(n, il(100)), gast.FuncDef{Name: "rec", Params: []string{n, m}, Body: []gast.Stmt{
+				gast.If{C: gast.Infix{Op: "<=", L: id(n), R: il(0)}, Then: []gast.Stmt{ret(id(m))}},
+				asg("inner", call("rec", gast.Infix{Op: "-", L: id(n), R: il(1)}, plus(id(m), id(n)))), ret(arr(id(n), id(m), id("inner")))}},
+				ret(arr(call("rec", il(3), il(0)), id(n)))}}
+		},
+		func(n, m string) gast.Program { // a user function named like a built-in never replaces it; one named like a variable does not disturb it
+			return gast.Program{Stmts: []gast.Stmt{gast.FuncDef{Name: "len", Params: []string{"q"}, Body: []gast.Stmt{ret(il(99))}}, gast.FuncDef{Name: n + "_fn", Params: []string{m}, Body: []gast.Stmt{ret(call("len", id(m)))}}, asg(n, str("abc")), ret(arr(call("len", id(n)), call(n+"_fn", str("four")), id(n)))}}
+		},
+	}
+	fields := map[string]model.Value{"Name": model.Str("field-name"), "Count": model.Int(3), "k": model.Str("field-k"), "len": model.Int(7)}
+	total := 0
+	for ti, tpl := range templates {
+		for _, n := range names {
+			for _, m := range names {
+				if n == m {
+					continue
+				}
+				total++
+				cid := fmt.Sprintf("names/%d/%s/%s", ti, n, m)
+				if !c.Want(cid) {
+					continue
+				}
+				p := tpl(n, m)
+				for _, noOpt := range []bool{false, true} {
+					judged := checkProgramAgainstModel(c, cid, "one name in several roles", p, nil, []map[string]model.Value{fields, fields}, noOpt)
+					c.Case(gast.Text(p)+fmt.Sprint(noOpt), judged > 0)
+				}
+				if total%97 == 0 {
+					c.Sample(map[string]string{"script": gast.Text(p), "kind": "name clash"})
+				}
+			}
+		}
+	}
 }
 
 // fixed regression programs (each was a defect once, or states a clause of the
